@@ -166,7 +166,8 @@ def run_schedule(v, srv, sb, cfg, roles, nblocks, order, tag, intruder_plan=None
 def intrude(v, srv, clients, what, cfg, replay):
     """an endpoint that owns no transfer sends a well-formed non-request packet"""
     kind, target = what
-    s = N._sock(srv.family, timeout=0.5)
+    # one attempt with a generous timeout: a second attempt could mask a reply that is only missing the first time
+    s = N._sock(srv.family, timeout=3.0)
     try:
         pkt = {"ACK": N.enc_ack(1), "DATA": N.enc_data(1, b"intruder payload"), "ERROR": N.enc_error(0, b"intruder"), "OACK": N.enc_oack([("blksize", 8)]), "ACK2": N.enc_ack(2), "DATA2": N.enc_data(2, b"x" * 512)}[kind]
         if target == "listen":
@@ -180,15 +181,6 @@ def intrude(v, srv, clients, what, cfg, replay):
                     v.violation("C12/leak", f"{cfg}: reply to an intruder carries transfer data", replay)
                 return "answered-error"
             except socket.timeout:
-                # believe a missing answer only after a second, patient attempt
-                s.settimeout(3.0)
-                s.sendto(pkt, srv.addr)
-                try:
-                    buf, src = s.recvfrom(2048)
-                    if N.dec(buf)[0] == "ERROR":
-                        return "answered-error-late"
-                except socket.timeout:
-                    pass
                 v.violation(f"C12/intruder-not-answered/{kind}", f"{cfg}: {kind} from an endpoint owning no transfer, sent to the listening port, got no ERROR reply", replay)
                 return "silent"
         else:
@@ -197,6 +189,7 @@ def intrude(v, srv, clients, what, cfg, replay):
             if not peers:
                 return "no-target"
             s.sendto(pkt, peers[0])
+            s.settimeout(0.3)
             try:
                 buf, src = s.recvfrom(2048)
                 k, f = N.dec(buf)
@@ -268,7 +261,7 @@ def run(tier):
                     samples.append({"config": cfg, "roles": roles, "blocks_each": nblocks, "datagram_order": order[:40], "intruders": {str(k): val for k, val in plan.items()}, "intruder_results": res})
             # stale endpoint: a source whose transfer has ended sends a non-request packet
             evaluations += 1
-            s = N._sock(srv.family, timeout=1.0)
+            s = N._sock(srv.family, timeout=3.0)
             write(os.path.join(sb["srv"], "stale.bin"), b"tiny")
             tr = N.download(srv.addr, "stale.bin", sock=s)
             time.sleep(0.05)
